@@ -40,7 +40,7 @@ Matches(m, e) ==
        [] e.k = "cas" -> m.loc = e.loc /\ m.i = e.i /\ m.j = e.j /\ m.v = e.v /\ m.a = e.a /\ m.b = e.b /\ m.ok = e.ok
        [] e.k \in {"run", "vbegin", "vend"} -> m.v = e.v
        [] e.k = "fin" -> m.a = e.a
-       [] e.k \in {"waitret", "greset"} -> TRUE
+       [] e.k \in {"waitret", "greset", "pt"} -> TRUE
        [] OTHER -> FALSE
 
 Consume ==
